@@ -108,6 +108,13 @@ def core_fstring(t):
     return 'unknown', None
 
 
+def unfmt(t):
+    """(value, format-spec term or None) of a formatted f-string part."""
+    if isinstance(t, App) and t.name == 'fmt':
+        return t.args[0], t.args[1]
+    return t, None
+
+
 def template_fields(template):
     return [f for _, f, _, _ in string.Formatter().parse(template) if f]
 
@@ -142,8 +149,10 @@ def writer_tokens(model, ci, region_value):
             else:
                 if not (isinstance(scalar, App) and scalar.name == 'fstring' and len(scalar.args) == 3):
                     raise AnalysisError('DS9', ci.name, f'pixel coordinate string not understood: {show(scalar, 160)}')
-                toks.append({'field': f, 'comp': 'x', 'kind': 'pixcoord', 'expr': scalar.args[0]})
-                toks.append({'field': f, 'comp': 'y', 'kind': 'pixcoord', 'expr': scalar.args[2]})
+                vx, sx = unfmt(scalar.args[0])
+                vy, sy = unfmt(scalar.args[2])
+                toks.append({'field': f, 'comp': 'x', 'kind': 'pixcoord', 'expr': vx, 'spec': sx, 'whole': v})
+                toks.append({'field': f, 'comp': 'y', 'kind': 'pixcoord', 'expr': vy, 'spec': sy, 'whole': v})
         elif kind in ('ScalarSkyCoord',):
             toks.append({'field': f, 'comp': 'lon', 'kind': 'skycoord', 'expr': v})
             toks.append({'field': f, 'comp': 'lat', 'kind': 'skycoord', 'expr': v})
